@@ -37,6 +37,12 @@ def generate(rng: random.Random, tier: str):
         cases.append({'kind': 'table', 'x_complex': xc, 'm_complex': mc, 'g_complex': gc, 'seed': rng.randrange(1 << 30)})
     for _ in range(n):
         cases.append({'kind': 'gridgrad', 'dim': rng.choice([2, 3]), 'seed': rng.randrange(1 << 30)})
+    # every padding mode (x interpolation x align_corners, with grid points outside [-1, 1] where the modes differ)
+    for pad in ('zeros', 'border', 'reflection'):
+        for _ in range(2 if thorough else 1):
+            dim = rng.choice([2, 3])
+            cases.append({'kind': 'gridgrad', 'dim': dim, 'padding': pad, 'mode': rng.choice(['bilinear', 'bicubic']) if dim == 2 else 'bilinear',
+                          'align': rng.random() < 0.5, 'wide': True, 'seed': rng.randrange(1 << 30)})
     return cases
 
 
@@ -99,6 +105,8 @@ def run_grad(case, drv, op=None, dom=None, rg=None, tol=None, single=False, name
         w = rnd(dom, gx2.is_complex(), single, gen)
         L2 = (w.conj() * gx2).real.sum() if gx2.is_complex() else (w * gx2).sum()
         st2, gg = call(lambda: torch.autograd.grad(L2, g_in)[0])
+        if st2 != 'ok' and 'not implemented' not in str(gg) and 'does not require grad' not in str(gg):
+            viol = v('second-order-raises', f'differentiating the backward pass raises {str(gg)[:200]}')
         if st2 == 'ok':
             wa = op(w.to(x2.dtype) if not w.is_complex() or x2.is_complex() else w)[0]
             wa = wa if g_in.is_complex() else wa.real
@@ -168,15 +176,17 @@ def run_gridgrad(case, drv) -> Outcome:
     dim = case['dim']
     ishape = [rng.randint(2, 3) for _ in range(dim)]
     oshape = [rng.randint(1, 2) for _ in range(dim)]
-    grid = torch.tensor([rng.uniform(-0.8, 0.8) for _ in range(math.prod(oshape) * dim)], dtype=torch.float64).reshape(1, *oshape, dim).requires_grad_(True)
+    lim = 1.4 if case.get('wide') else 0.8
+    mode, padding, align = case.get('mode', 'bilinear'), case.get('padding', 'zeros'), case.get('align', False)
+    grid = torch.tensor([rng.uniform(-lim, lim) for _ in range(math.prod(oshape) * dim)], dtype=torch.float64).reshape(1, *oshape, dim).requires_grad_(True)
     x = torch.randn(1, 1, *ishape, dtype=torch.float64, requires_grad=True)
     sd = SpatialDimension(*(([1] if dim == 2 else []) + ishape))
 
     def f(g, xx):
-        return mrpro.operators.GridSamplingOp(g, sd, interpolation_mode='bilinear', padding_mode='zeros', align_corners=False)(xx)[0]
+        return mrpro.operators.GridSamplingOp(g, sd, interpolation_mode=mode, padding_mode=padding, align_corners=align)(xx)[0]
 
     def fa(g, yy):
-        return mrpro.operators.GridSamplingOp(g, sd, interpolation_mode='bilinear', padding_mode='zeros', align_corners=False).adjoint(yy)[0]
+        return mrpro.operators.GridSamplingOp(g, sd, interpolation_mode=mode, padding_mode=padding, align_corners=align).adjoint(yy)[0]
 
     viol = None
     with warnings.catch_warnings():
@@ -185,10 +195,10 @@ def run_gridgrad(case, drv) -> Outcome:
         y = torch.randn(1, 1, *oshape, dtype=torch.float64, requires_grad=True)
         st2, ok2 = call(lambda: torch.autograd.gradcheck(fa, (grid, y), eps=1e-6, atol=1e-5, rtol=1e-4, raise_exception=False))
     if st != 'ok' or not ok:
-        viol = {'signature': 'gridgrad:forward', 'what': f'GridSamplingOp {dim}D: gradients w.r.t. grid / input fail the finite-difference check ({ok})'}
+        viol = {'signature': 'gridgrad:forward', 'what': f'GridSamplingOp {dim}D {mode}/{padding}/align={align}: gradients w.r.t. grid / input fail the finite-difference check ({ok})'}
     elif st2 != 'ok' or not ok2:
-        viol = {'signature': 'gridgrad:adjoint', 'what': f'GridSamplingOp {dim}D adjoint: gradients w.r.t. grid / input fail the finite-difference check ({ok2})'}
-    return Outcome(key=('gridgrad', dim, case['seed'] % 97), viol=viol, branches=[f'gridgrad:{dim}D'], sample=case)
+        viol = {'signature': 'gridgrad:adjoint', 'what': f'GridSamplingOp {dim}D {mode}/{padding}/align={align} adjoint: gradients w.r.t. grid / input fail the finite-difference check ({ok2})'}
+    return Outcome(key=('gridgrad', dim, mode, padding, align, case['seed'] % 97), viol=viol, branches=[f'gridgrad:{dim}D:{mode}:{padding}'], sample=case)
 
 
 def run(case, drv) -> Outcome:
